@@ -99,13 +99,13 @@ func runC06(c c06Case) (*Violation, string) {
 			continue
 		}
 		if !rig.W.WaitStarted(s.tok, 3*time.Second) {
-			return nil, "handler for " + s.tok + " did not start"
+			return violf("healthy-link-wedged", "the handler of %s %s did not start within 3s on a healthy connection; hook history: %v", s.Kind, s.tok, hooks.History(20)), ""
 		}
 		if s.Kind == "sub" && s.Cancel != "pending" {
 			select {
 			case <-s.p.Done:
 			case <-time.After(3 * time.Second):
-				return nil, "subscription not established"
+				return violf("healthy-link-wedged", "subscription %s was not established within 3s on a healthy connection", s.tok), ""
 			}
 			if s.p.Err != nil {
 				return nil, "subscription failed: " + s.p.Err.Error()
@@ -131,7 +131,7 @@ func runC06(c c06Case) (*Violation, string) {
 		time.Sleep(2 * time.Millisecond)
 	}
 	if probeOK == 0 {
-		return nil, "probes failed"
+		return violf("healthy-link-wedged", "three plain calls in a row failed on a healthy connection after the cancellations; hook history: %v", hooks.History(20)), ""
 	}
 	// A: cancellation reaches the cancelled handlers
 	for _, s := range calls {
